@@ -7,7 +7,8 @@ def run(c):
               "holes, control batches, legacy followed by v2) x start offsets at every position x fetch scripts (splits into up to 4 "
               "responses, partial trailing data, small fetch sizes, error codes / missing block / empty / throttled / no answer / dropped "
               "connection) x fetch versions 0-11; parse tier: real decoder + real parseResponse step by step; end-to-end tier: real "
-              "PartitionConsumer against a MockBroker (reader pace, channel buffer, several partitions per broker). Non-trivial = at least one "
+              "PartitionConsumer against a MockBroker (reader pace, channel buffer, several partitions per broker, leader loss with failing "
+              "re-dispatch); pipeline tier: the hook log of up to 60 of those runs replayed step by step through Consumer/Pipeline.v. Non-trivial = at least one "
               "record delivered; distinct = distinct (scenario, observation) JSON")
     c.trust("correspondence harness go/harness/cmd/c03corr + internal/conslog (log generator, hand-written FetchResponse body encoder, "
             "simulated broker, dump of decoded responses, reference filter of the log) and go/shims/consumer_shim.go")
@@ -17,7 +18,8 @@ def run(c):
     c.assume("Consumer.Fetch.Max = 0 or every stored batch fits into it (outside: the code reports ErrMessageTooLarge and steps over one "
              "offset; those cases are compared model-vs-code only)")
     c.assume("stored batches are non-empty and offsets stay far from the int64 limits")
-    c.assume("brokerConsumer / dispatcher composition is exercised end to end but not modelled (feeder + parse are)")
+    c.assume("pipeline model: one broker, time abstract, shutdown and preferred-read-replica redispatch not modelled; its tie needs the "
+             "verifPoint call sites of hooks/consumer_pipeline.patch (without them no pipeline cases are produced)")
     if not c.coq_make(dirs=["Consumer"]):
         return
     c.coq_properties()
